@@ -76,6 +76,88 @@ pub fn run(run: &Run) {
         }
     });
 
+    // ---- family 1b: the same index / map-each paths over OWNED containers. A path
+    // that starts at a field only ever borrows; the result of a function call is
+    // owned, and the engine indexes owned and borrowed containers by different
+    // code. Every case is run with the field itself and with the field passed
+    // through the identity function of its type: both must agree with RefSem.
+    const IDENT_FOR: &[(&str, &str)] = &[
+        ("l_str_m", "idls1"), ("l_str_o", "idls2"), ("l_tru_m", "idlt1"), ("l_tru_o", "idlt2"),
+        ("m_str_m", "idms1"), ("m_tru_m", "idmt1"), ("ll_str_m", "idlls1"), ("ll_tru_m", "idllt1"),
+        ("lm_num_m", "idlmn1"), ("ml_num_m", "idmln1"), ("lll_num_m", "idllln1"), ("lll_num_m", "idllln2"),
+    ];
+    let n = run.opts.size(60_000, 1_500_000);
+    run.parallel("owned", n, |i, l| {
+        use crate::ast::*;
+        use crate::rv::RType;
+        let mut r = Rng::derive(seed, "c02-owned", i);
+        let eng = &envs[r.below(envs.len())];
+        let env = &eng.env;
+        let (fname, func) = IDENT_FOR[r.below(IDENT_FOR.len())];
+        let field = env.field(fname).unwrap();
+        let func = env.func(func).unwrap();
+        // an index path from the container down to a scalar (or down to a boolean
+        // array, used directly as a quantifier argument)
+        let mut idx = Vec::new();
+        let mut cur = env.fields[field].ty.clone();
+        let mut each = 0;
+        let stop_at_bool_array = r.chance(1, 3);
+        while let Some(e) = cur.elem() {
+            if stop_at_bool_array && cur == RType::bool_arr() && each == 0 {
+                break;
+            }
+            let step = match (&cur, r.below(4)) {
+                (_, 0) => {
+                    each += 1;
+                    Idx::Each
+                }
+                (RType::Array(_), _) => Idx::Arr([0u32, 1, 2, 3, 7, u32::MAX][r.below(6)]),
+                (RType::Map(_), _) => Idx::Key(r.pick(&FILTER_KEYS).to_string()),
+                _ => unreachable!(),
+            };
+            idx.push(step);
+            cur = e.clone();
+        }
+        let mut g = FilterGen::new(env, GenCfg { calls: true, ..cfg() }, Rng::derive(seed, "c02-owned-g", i));
+        let mk = |base: Base, g: &mut FilterGen<'_>, r: &mut Rng| -> Expr {
+            let path = Path { base, idx: idx.clone() };
+            if cur == RType::bool_arr() && each == 0 {
+                return Expr::Quant(if r.bool() { QOp::Any } else { QOp::All }, QArg::Path(path));
+            }
+            let cmp = Expr::Cmp(path, g.cmp_op(&cur));
+            if each > 0 {
+                Expr::Quant(if r.bool() { QOp::Any } else { QOp::All }, QArg::Logical(Box::new(cmp)))
+            } else {
+                cmp
+            }
+        };
+        let mut r2 = r.clone();
+        let mut g2 = FilterGen::new(env, GenCfg { calls: true, ..cfg() }, Rng::derive(seed, "c02-owned-g", i));
+        let borrowed = mk(Base::Field(field), &mut g, &mut r).normalize();
+        let owned = mk(
+            Base::Call(Box::new(Call { func, args: vec![Arg::Path(Path::field(field))] })),
+            &mut g2,
+            &mut r2,
+        )
+        .normalize();
+        if crate::refsem::type_filter(env, &owned).is_err() || crate::refsem::type_filter(env, &borrowed).is_err() {
+            l.count("owned_case_ill_typed");
+            return;
+        }
+        let ctxs: Vec<(Ctx, ListState)> = (0..4).map(|_| (gen_ctx(&mut r, env), ListState::default())).collect();
+        for (e, what) in [(&borrowed, "borrowed"), (&owned, "owned")] {
+            let text = print_filter(env, e, Some(Rng::derive(seed, "c02-owned-p", i)));
+            let bad = check_filter(run, l, if what == "owned" { "C02/owned-container" } else { "C02" }, "owned", i, eng, e, &text, &ctxs);
+            if bad == 0 {
+                l.count(if what == "owned" { "owned_paths_checked" } else { "borrowed_paths_checked" });
+            }
+            if i % 5003 == 0 && what == "owned" {
+                run.sample("owned", 4, || json!({"filter": text}));
+            }
+        }
+        run.distinct(hash_str(&format!("o|{}|{:?}", fname, idx)));
+    });
+
     // ---- family 2: indexed value expressions
     let n = run.opts.size(80_000, 1_500_000);
     run.parallel("values", n, |i, l| {
